@@ -202,6 +202,58 @@ fn run_c04(args: &Args) -> Report {
         }
     }
     rep.count("cases[operator pairs+triples, exhaustive]", n_w1);
+
+    // W1b: string literals. Every sequence of up to four pieces over {plain, escaped
+    // backslash, escaped quote, escape, space, non-ASCII, raw newline, unicode escape} as the
+    // content of a literal that is followed by more code: the literal must end at ITS
+    // closing quote (an escaped backslash before the quote is where lexers slip).
+    {
+        let pieces: [&str; 8] = ["a", "\\\\", "\\\"", "\\n", " ", "\u{e9}", "\n", "\\u{1F600}"];
+        let mut n = 0u64;
+        let mut idx = vec![0usize; 0];
+        // enumerate by length
+        for len in 0..=4usize {
+            idx.clear();
+            idx.resize(len, 0);
+            loop {
+                k += 1;
+                if k % args.nshards == args.shard {
+                    let content: String = idx.iter().map(|&i| pieces[i]).collect();
+                    let e = Expr::Tuple(vec![Expr::Str(content.clone()), Expr::Str("x".into()), v("a")]);
+                    let m = fn_wrap(e);
+                    let p = print_module(&m, None, Trivia::Plain, false);
+                    let want = sexp_module(&m);
+                    check_program_text(&mut rep, "string-literals", &p.text, &want, 1, json!({"kind":"text","phase":"string-literals","text":p.text,"want":want}));
+                    rep.nontrivial(fnv(p.text.as_bytes()));
+                    for &i in &idx {
+                        rep.see("string_pieces", pieces[i].escape_default().to_string());
+                    }
+                    n += 1;
+                }
+                // next
+                let mut j = len;
+                loop {
+                    if j == 0 {
+                        break;
+                    }
+                    j -= 1;
+                    idx[j] += 1;
+                    if idx[j] < pieces.len() {
+                        break;
+                    }
+                    idx[j] = 0;
+                    if j == 0 {
+                        j = usize::MAX;
+                        break;
+                    }
+                }
+                if len == 0 || j == usize::MAX {
+                    break;
+                }
+            }
+        }
+        rep.count("cases[string literal contents, exhaustive up to 4 pieces]", n);
+    }
     rep.exhaustive = Some(true);
 
     // W2: random programs with wild trivia.
